@@ -66,12 +66,31 @@ print("JSON:" + json.dumps(dict(still=(v[1] != 1500.0 or f[1] != 500.0), values=
 """
 
 
+KNOWN_WITNESS_ATTACH_SRC = """
+import json, warnings
+import numpy as np, pandas as pd
+warnings.filterwarnings("ignore")
+import bt
+from bt.core import StrategyBase
+idx = pd.date_range("2021-01-04", periods=3)
+data = pd.DataFrame({"a": [100.0, 100.0, 100.0]}, index=idx)
+s = StrategyBase("s"); s.setup(data); s.update(idx[0])
+s.adjust(1000.0)                      # pending: the tree is marked stale
+StrategyBase("n", parent=s)           # a node attached to the live tree (the dynamic-strategy pattern) ...
+flag = bool(s.root.stale)
+v, c = float(s.value), float(s.capital)      # ... and the next read is served from the cache: value 0 with 1000 of cash
+print("JSON:" + json.dumps(dict(still=(not flag and v != c), stale=flag, value=v, cash=c)))
+"""
+
+KNOWN_WITNESSES = {"C01-pending-change-lost-when-the-date-moves": KNOWN_WITNESS_SRC, "C01-attaching-a-node-clears-the-pending-flag": KNOWN_WITNESS_ATTACH_SRC}
+
+
 def known_witness(f):
     """replays the recorded failing history of a known finding on the current tree (real code)"""
-    if f["id"] != "C01-pending-change-lost-when-the-date-moves":
+    if f["id"] not in KNOWN_WITNESSES:
         return None
     from pyvc.replay import Scratch
 
     with Scratch() as sc:
-        d = sc.run_json(KNOWN_WITNESS_SRC, timeout=120)
+        d = sc.run_json(KNOWN_WITNESSES[f["id"]], timeout=120)
     return bool(d.get("still"))
